@@ -76,6 +76,21 @@ def _table_expr(node):
         return all(_table_expr(e) for e in node.elts)
     if isinstance(node, ast.Constant):
         return True
+    if isinstance(node, (ast.DictComp, ast.ListComp)) and len(node.generators) == 1 and not node.generators[0].ifs \
+            and isinstance(node.generators[0].target, ast.Name) and _table_expr(node.generators[0].iter):
+        # {row.name: row for row in (literal rows)}: a table keyed by a field of its rows
+        tv = node.generators[0].target.id
+
+        def of_row(e):
+            if isinstance(e, ast.Name):
+                return e.id == tv
+            if isinstance(e, ast.Attribute):
+                return of_row(e.value)
+            if isinstance(e, ast.Subscript):
+                return of_row(e.value) and isinstance(e.slice, ast.Constant)
+            return isinstance(e, ast.Constant)
+        parts = [node.key, node.value] if isinstance(node, ast.DictComp) else [node.elt]
+        return all(of_row(e) for e in parts)
     if isinstance(node, ast.Call) and isinstance(node.func, ast.Name) and node.func.id.startswith('_') and \
             not any(k.arg is None for k in node.keywords):
         # a row built by a private helper of the module from literal entries
@@ -205,7 +220,11 @@ class ExprMixin:
                 return isinstance(d_, ast.Dict) and d_.keys and all(k is not None and isinstance(k, ast.Constant) for k in d_.keys) and \
                     all((isinstance(v_, ast.Name) and v_.id in m.functions) or isinstance(v_, ast.Lambda) or nested_table(v_)
                         for v_ in d_.values)
-            if seq_of_callables or nested_table(val) or isinstance(val, ast.Dict) and val.keys and all(k is not None and isinstance(k, ast.Constant) for k in val.keys) and \
+            rows_of_callables = isinstance(val, (ast.Tuple, ast.List)) and 0 < len(val.elts) <= 12 and all(
+                isinstance(r_, (ast.Tuple, ast.List)) and r_.elts and
+                all(isinstance(c_, (ast.Lambda, ast.Constant)) or (isinstance(c_, ast.Name) and c_.id in m.functions) for c_ in r_.elts)
+                and any(isinstance(c_, ast.Lambda) or isinstance(c_, ast.Name) for c_ in r_.elts) for r_ in val.elts)
+            if seq_of_callables or rows_of_callables or nested_table(val) or isinstance(val, ast.Dict) and val.keys and all(k is not None and isinstance(k, ast.Constant) for k in val.keys) and \
                     all(isinstance(v_, (ast.Lambda, ast.Name, ast.Attribute)) for v_ in val.values) and \
                     (any(isinstance(v_, ast.Lambda) for v_ in val.values) or
                      all(isinstance(v_, ast.Name) and v_.id in m.functions for v_ in val.values)):
@@ -261,7 +280,7 @@ class ExprMixin:
             type_tuple = isinstance(val, ast.Tuple) and val.elts and all(
                 isinstance(e_, (ast.Name, ast.Attribute)) and (dotted(e_) or '').split('.')[-1] in _TYPE_NAMES
                 for e_ in val.elts)                 # _NUMBERS = (int, float, np.number): the second argument of isinstance
-            if _constant_expr(val) or int_tuple or type_tuple or (getattr(self, 'literal_tables', False) and isinstance(val, (ast.Dict, ast.Tuple, ast.List, ast.Set))
+            if _constant_expr(val) or int_tuple or type_tuple or (getattr(self, 'literal_tables', False) and isinstance(val, (ast.Dict, ast.Tuple, ast.List, ast.Set, ast.DictComp, ast.ListComp))
                                        and _table_expr(val)):
                 # a module constant derived from literals and other constants (e.g. -2j*pi): its value
                 prev, self.cur = self.cur, _ModuleScope(m, self.cur)
@@ -507,6 +526,15 @@ class ExprMixin:
         f = lambda n: self.eval(n, st) if n is not None else NONE
         return Slice(f(node.lower), f(node.upper), f(node.step))
 
+    def shape_items(self, it):
+        """`x.shape` as the tuple of its items when the number of axes of x is a known fact (for iteration)"""
+        a = it.single_atom() if isinstance(it, Poly) else None
+        if a is not None and a[0] == 'attr' and a[2] == 'shape':
+            nd = self.apply_facts(nf.attr(Poly.atom(a[1]), 'ndim'))
+            if isinstance(nd, Poly) and nd.const_value() is not None and 1 <= nd.const_value() <= 4:
+                return Tup([nf.index(it, Poly.const(k)) for k in range(int(nd.const_value()))])
+        return it
+
     def _comp(self, node, st, elt_nodes, kind):
         # a single generator over a sequence whose items are all known is unrolled
         if len(node.generators) == 1 and (node.generators[0].ifs or kind == 'dictcomp'):
@@ -544,6 +572,7 @@ class ExprMixin:
             it = self.eval(gen.iter, st)
             if isinstance(it, Const) and isinstance(it.value, str) and len(it.value) <= 8:
                 it = Tup([Const(ch) for ch in it.value])
+            it = self.shape_items(it)
             ita = it.single_atom() if isinstance(it, Poly) else None
             if ita is not None and ita[0] == 'idx' and ita[2] == NONE:
                 it = Tup([Poly.atom(ita[1])])          # x[np.newaxis]: a sequence whose only item is x
@@ -757,6 +786,14 @@ class ExprMixin:
                 return Tup([app(tgt[1].split('.')[1], *items, Poly.const(k)) for k in range(len(items))])
         base = self.eval(base_node, st)
         key = self.eval(node.slice, st)
+        if isinstance(base, Poly) and base.single_atom() is not None and isinstance(key, Poly) and key.const_value() is not None:
+            # a NamedTuple record answers to positions as well as to names
+            from .interp import RECORD_FIELDS
+            fields = RECORD_FIELDS.get(base.single_atom())
+            if fields and key.const_value().denominator == 1 and -len(fields) <= int(key.const_value()) < len(fields):
+                slot = nf.attr(base, fields[int(key.const_value())]).single_atom()
+                if slot in st.heap:
+                    return st.heap[slot]
         return self.load_index(base, key)
 
     def load_index(self, base, key):
